@@ -10,6 +10,7 @@ from graphql import (
     FragmentSpreadNode,
     GraphQLAbstractType,
     GraphQLField,
+    GraphQLInterfaceType,
     GraphQLNamedType,
     GraphQLNonNull,
     GraphQLObjectType,
@@ -382,9 +383,9 @@ class ResultTypesGenerator:
         if not type_:
             return None
 
-        if isinstance(type_, GraphQLObjectType) and selection_value in {
-            interface.name for interface in type_.interfaces
-        }:
+        if isinstance(
+            type_, (GraphQLObjectType, GraphQLInterfaceType)
+        ) and selection_value in {interface.name for interface in type_.interfaces}:
             return selection_value
 
         if selection_value == root_type:
